@@ -49,7 +49,9 @@ DEP_KINDS = ["pure_dep", "em_dep"]
 # pure_twice / em_twice: the same tensor object supplied at two positions (twice explicitly; held by the object
 # and passed explicitly); multi3: a sibling of three methods of three objects
 MORE_KINDS = ["pure_twice", "em_twice", "multi3", "em_dict_rev", "em_pexp", "both", "both_rev"]
-KINDS = [k for k in F.ALL_KINDS if k != "pure"] + DEP_KINDS + MORE_KINDS
+# the same objects after one earlier call and a re-binding of their tensors by the owner
+REBIND_KINDS = {"em_rebind": "em_leaves", "nn_rebind": "nn_flat", "emcall_rebind": "em_call"}
+KINDS = [k for k in F.ALL_KINDS if k != "pure"] + DEP_KINDS + MORE_KINDS + list(REBIND_KINDS)
 FUNCS = F.FUNCTIONALS + ["jac_solve"]
 
 
@@ -82,7 +84,23 @@ def _execute(kind, cfg):
     """run functional + gradients on one representation; returns dict stage -> Outcome / tensors"""
     probe = F.Probe()
     vals = F.leaf_values(cfg["plane"], cfg["seed"])
-    rep = F.build(kind, cfg["functional"], cfg["extra"], cfg["rg"], probe, vals)
+    rebind = kind in REBIND_KINDS
+    rep = F.build(REBIND_KINDS[kind] if rebind else kind, cfg["functional"], cfg["extra"], cfg["rg"], probe, vals)
+    if rebind:
+        # object history: the functional has been called once on this object (result dropped, no backward pass),
+        # then its owner binds NEW leaf tensors of the same values to the declared names; the judged call and its
+        # gradients are those of the tensors the object holds now
+        torch.manual_seed(20239)
+        call(F.run_functional, cfg["functional"], rep, cfg["method"], cfg["bck"])
+        for (holder, name, _i) in rep.slots:
+            old = getattr(holder, name)
+            new = old.detach().clone()
+            new = torch.nn.Parameter(new, requires_grad=old.requires_grad) if isinstance(old, torch.nn.Parameter) \
+                else new.requires_grad_(old.requires_grad)
+            setattr(holder, name, new)
+            for k, t in list(rep.leaves.items()):
+                if t is old:
+                    rep.leaves[k] = new
     leaves = [rep.leaves[k] for k in cfg["rg"]]
     res = {"rep": rep, "out": None, "g1": None, "g2": None, "exc": None, "stage": None}
     torch.manual_seed(20240)
